@@ -8,7 +8,7 @@ LEVEL = "exploration"
 NEEDS = ("rust", "deps")
 EXHAUSTIVE = {"quick": False, "thorough": False}
 REQUIRED_MONITORS = ["python_vs_reference", "rust_vs_reference", "python_vs_rust", "every_cycle_exactly_once",
-                     "advance_contract", "machine_level", "py_fires_per_boundary"]
+                     "advance_contract", "machine_level", "py_fires_per_boundary", "rearm_inside_handler"]
 RULE = ("period pairs: ALL (p,q) in 0..12 x 0..12 x enabled in {0,1} (complete, both tiers) + sampled large periods "
         "(primes, 2^k+-1, the real defaults); cycle sequences: every-cycle for 5*lcm, gap styles {1,2,p-1,p,p+1,2p,2p+1,10p+3, "
         "random}, with resets and snapshot->restore on a fresh context at seeded points. The same monotone sequence is fed to "
@@ -304,12 +304,68 @@ def run_machine(res: Result, r, n, grid=False):
                 res.nontrivial("machine", model, kind, p, q, en, len(steps))
 
 
+def run_rearm(res: Result, tier):
+    """The host re-arms the timers (TimerContext::reset / TimerScheduler.reset at the current cycle) at every step of a
+    window that covers the main loop AND the inside of a timer interrupt handler. Bounded progress afterwards: the main
+    timer keeps firing - no stretch longer than two periods plus the handler's length goes by without a main-timer
+    interrupt being taken (handlers are short, the source stays enabled)."""
+    from .. import machine
+    from ..machine import le3, ROM_BASE, VECTOR, ENTRY
+    from .c12 import key_codes
+    handler = ROM_BASE + 0x100
+    jobs = []
+    for p in (5, 7, 9, 11):
+        for t in range(8, 44, 1 if tier == "thorough" else 2):
+            reset = bytes([0x0F]) + le3(0xB9000) + bytes([0x32, 0xCC, 0xFC, 0x00, 0x32, 0xCC, 0xFB, 0x81])
+            main = bytes([0x00, 0x00, 0x00, 0x13, 0x05])
+            hnd = bytes([0x00, 0x00, 0x32, 0xCC, 0xFC, 0x00, 0x00, 0x01])       # NOP NOP MV (ISR),0 NOP RETI
+            scen = {"code": [[ROM_BASE, (reset + main).hex()], [handler, hnd.hex()], [VECTOR, le3(handler).hex()],
+                             [ENTRY, le3(ROM_BASE).hex()]],
+                    "regs": {"PC": ROM_BASE, "S": 0xB9000}, "imem": {0xFB: 0, 0xFC: 0},
+                    "timer": {"enabled": True, "mti": p, "sti": 0, "kb_irq": False}}
+            script = [("obs",)]
+            for i in range(150):
+                if i == t:
+                    script.append(("treset",))
+                script.append(("step",))
+            jobs.append((scen, script, p, t))
+    routs = machine.run_rust([(s_, sc) for s_, sc, _p, _t in jobs], key_codes())
+    for (scen, script, p, t), (robs, rerr, _raw) in zip(jobs, routs):
+        pobs = machine.PyMachine(scen).run(script)
+        for model, obs in (("py", pobs), ("rs", robs)):
+            res.evaluations += 1
+            res.monitor("rearm_inside_handler")
+            steps = obs[1:]
+            if len(steps) < 150:
+                res.violation({"clause": "rearm_run_incomplete", "model": model}, {"model": model, "mti": p, "rearm_at": t},
+                              {"steps": len(steps), "err": rerr if model == "rs" else None})
+                continue
+            in_handler_at_rearm = steps[t - 1]["in_irq"] if t >= 1 else False
+            last = steps[t - 1]["cycles"]
+            prev_cnt = steps[t - 1]["irq_mti"]
+            worst = 0
+            for o in steps[t:]:
+                if o["irq_mti"] != prev_cnt:
+                    worst = max(worst, o["cycles"] - last)
+                    last, prev_cnt = o["cycles"], o["irq_mti"]
+            worst = max(worst, steps[-1]["cycles"] - last)
+            if worst > 2 * p + 16:
+                res.violation({"clause": "timer_stops_firing_after_rearm", "model": model, "in_handler": bool(in_handler_at_rearm)},
+                              {"model": model, "mti": p, "rearm_at_step": t},
+                              {"longest_stretch_without_main_timer_interrupt": worst, "period": p,
+                               "entries_total": steps[-1]["irq_mti"]})
+            else:
+                res.nontrivial("rearm", model, p, t, bool(in_handler_at_rearm))
+                res.table("rearm_points", f"{model}:{'handler' if in_handler_at_rearm else 'main'}")
+
+
 def plan(tier, seed):
     specs = []
     idx = 0
     for i in range(4 if tier == "quick" else 16):
         specs.append({"kind": "machine", "seed": seed, "tier": tier, "idx": 1000 + i})
     specs.append({"kind": "machine", "grid": True, "seed": seed, "tier": tier, "idx": 1100})
+    specs.append({"kind": "rearm", "seed": seed, "tier": tier, "idx": 1200})
     for p in range(13):
         specs.append({"kind": "small", "p": p, "seed": seed, "tier": tier, "idx": idx}); idx += 1
     parts = 4 if tier == "quick" else 16
@@ -325,6 +381,9 @@ def run_shard(spec) -> Result:
     res = Result()
     r = rng(spec["seed"], "c13", spec["idx"])
     cfgs = []
+    if spec["kind"] == "rearm":
+        run_rearm(res, spec["tier"])
+        return res
     if spec["kind"] == "machine":
         run_machine(res, r, 40 if spec["tier"] == "quick" else 400, grid=bool(spec.get("grid")))
         return res
